@@ -381,7 +381,10 @@ pub fn flex_layout(
             let mut child_layout = child_layout_opt.expect("not all flex children are allocated");
             if let Some(flex) = child.flex {
                 // compute available flex
-                let child_major_max = ((major_remain as f64) * flex / flex_total).round() as usize;
+                // share can exceed remaining space (negative, huge flex factors)
+                let child_major_max = (((major_remain as f64) * flex / flex_total).round()
+                    as usize)
+                    .min(major_remain);
                 flex_total -= flex;
                 if child_major_max != 0 {
                     // layout child
@@ -391,7 +394,8 @@ pub fn flex_layout(
                     let child_minor = direction.minor(child_layout.size());
 
                     // update counters
-                    major_remain -= child_major;
+                    // child might not honor its constraint
+                    major_remain = major_remain.saturating_sub(child_major);
                     major_flex += child_major;
                     minor = max(minor, child_minor);
                 }
